@@ -92,7 +92,11 @@ def check(run):
     stop = tuple(t.short for t in impls) + (gate.short,)
     R = prog.transitive_reads(pub, stop=stop)
     # functions shared by both subtrees (e.g. _evaluate_code) read on behalf of guards too: include reads of all functions reachable outside
+    from .c16 import derived_caches
+    memo = set(derived_caches(prog))
     for (c, fld), sites in sorted(W.items()):
+        if c == 'Statechart' and fld in memo:
+            continue      # memoised query result, governed by the invalidation rule C16.7
         real = [(f, kind, node) for f, kind, node in sites
                 if not (f.name == '__init__' and f.cls is not None and (c == f.cls.name or prog.is_subclass(f.cls.name, c))) and not c.startswith('?')]
         if not real:
